@@ -250,9 +250,14 @@ def gen_ty(rng, depth: int, top: bool = False):
 def gen_comp(rng, depth, kind):
     if kind == "union":
         x = rng.random()
-        if x < 0.9:
+        if x < 0.82:
             n = rng.choice([2, 2, 3, 4, 5])
             fs = [gen_field(rng, depth - 1, union=True) for _ in range(n)]
+        elif x < 0.9:
+            # few variants, many constants: constants are attributes but not variants (tag width!)
+            n = rng.choice([2, 2, 3])
+            fs = [gen_field(rng, depth - 1, union=True) for _ in range(n)]
+            return ["union", fs, rng.choice([1, 3, 253, 254, 255, 256])]
         elif x < 0.96:
             n = rng.choice([255, 256, 257, 258])
             fs = [["prim", rng.choice([1, 8, 16]), "uintsat"] for _ in range(n)]
@@ -260,7 +265,10 @@ def gen_comp(rng, depth, kind):
             fs = [gen_field(rng, depth - 1, union=True) for _ in range(rng.choice([0, 1]))]  # rejected
         return ["union", fs]
     n = rng.choice([0, 1, 1, 2, 2, 3, 3, 4, 6])
-    return ["struct", [gen_field(rng, depth - 1, union=False) for _ in range(n)]]
+    fs = [gen_field(rng, depth - 1, union=False) for _ in range(n)]
+    if rng.random() < 0.1:
+        return ["struct", fs, rng.choice([1, 2, 5])]
+    return ["struct", fs]
 
 
 def gen_field(rng, depth, union):
@@ -270,6 +278,11 @@ def gen_field(rng, depth, union):
     if t[0] == "prim" and t[2] in ("byte", "utf8"):
         t = ["prim", 8, "uintsat"]  # byte / utf8 are array elements only
     return t
+
+
+def gen_prim_field(rng):
+    t = gen_prim(rng)
+    return ["prim", 8, "uintsat"] if t[2] in ("byte", "utf8") else t
 
 
 def gen_base(rng):
@@ -285,10 +298,46 @@ def strip(t):
         return t
     if k in ("farr", "varr", "delim"):
         return [k, strip(t[1]), t[2]]
-    return [k, [strip(f) for f in t[1]]]
+    return [k, [strip(f) for f in t[1]]]  # a third element (number of constants) is irrelevant to the layout
+
+
+def gen_lookalike_warm(rng, prop):
+    """Two builds in one process: first a type containing composite `Item` with one layout, then the SAME names with
+    another layout that the approximate BitLengthSet equality cannot tell apart.  Nothing computed for the first may
+    leak into the second (caches keyed by type equality)."""
+    w = rng.choice([8, 16])
+    a = ["struct", [["varr", ["prim", 8 * w, "uintsat"] if 8 * w <= 64 else ["prim", 64, "uintsat"], 1]]]
+    b = ["struct", [["varr", ["prim", 32, "uintsat"], 2]]]
+    if rng.random() < 0.5:
+        a, b = ["struct", [["varr", ["prim", 64, "uintsat"], 1]]], ["struct", [["varr", ["prim", 32, "uintsat"], 2]]]
+    else:
+        a, b = ["union", [["prim", 8, "uintsat"], ["prim", 64, "uintsat"]]], ["union", [["prim", 8, "uintsat"], ["prim", 32, "uintsat"], ["prim", 64, "uintsat"]]]
+    kind = rng.choice(["farr", "varr", "struct", "nested"])
+    cap = rng.choice([2, 3])
+
+    def wrapper(x):
+        if kind == "farr":
+            return ["struct", [["farr", x, cap]]]
+        if kind == "varr":
+            return ["struct", [["varr", x, cap], ["prim", 3, "uintsat"]]]
+        if kind == "struct":
+            return ["struct", [["prim", 8, "uintsat"], x, x]]
+        return ["delim", ["struct", [["farr", ["struct", [x]], 2]]], 2048]
+    first, second = (a, b) if rng.random() < 0.6 else (b, a)
+    case = make_queries(rng, wrapper(second), prop)
+    if case is None:
+        return None
+    if not any(q[0] == "expand" for q in case["qs"]):
+        case["qs"].append(["expand"])
+    case["warm"] = wrapper(first)
+    return case
 
 
 def gen_case(rng, prop):
+    if rng.random() < 0.06:
+        c = gen_lookalike_warm(rng, prop)
+        if c is not None:
+            return c
     for _ in range(50):
         t = gen_ty(rng, rng.choice([1, 2, 2, 3, 3, 4]), top=True)
         case = make_queries(rng, t, prop)
@@ -340,6 +389,15 @@ def make_queries(rng, t, prop):
             i = s_intrinsic(st, j, inn)
             if _expand_ok(inn, i) and _expand_ok(nodes, root) and not nested_arrays(st):
                 qs.append(["intrinsic", j])
+    inner0 = st[1] if st[0] == "delim" else st
+    if inner0[0] == "struct" and not nested_arrays(st) and _expand_ok(nodes, root) and rng.random() < 0.35:
+        # a service: `_offset_` queried after the same number of fields in the request and in the response
+        resp = ["struct", [gen_prim_field(rng) for _ in range(rng.randint(1, 3))]]
+        j = rng.randint(0, min(len(inner0[1]), len(resp[1])))
+        ia: list = []
+        ib: list = []
+        if _expand_ok(ia, s_intrinsic(st, j, ia)) and _expand_ok(ib, s_intrinsic(strip(resp), j, ib)):
+            qs.append(["svc_intrinsic", j, resp])
     if st[0] == "farr" and st[2] <= 12:
         base = dedup_list(gen_base(rng))
         divs = [8, rng.choice([1, 3, 16, 32])]
@@ -393,6 +451,8 @@ def build_impl(pydsdl, t, names: _Names):
                 attrs.append(pydsdl.PaddingField(ft))
             else:
                 attrs.append(pydsdl.Field(ft, "f%d" % i))
+        for ci in range(t[2] if len(t) > 2 else 0):
+            attrs.append(pydsdl.Constant(pydsdl.UnsignedIntegerType(8, CM.SATURATED), "C%d" % ci, pydsdl.Rational(ci % 256)))
         cls = pydsdl.StructureType if k == "struct" else pydsdl.UnionType
         return cls(name="ns." + names.fresh(), version=pydsdl.Version(1, 0), attributes=attrs, deprecated=False,
                    fixed_port_id=None, source_file_path=Path("/nonexistent/ns/X.1.0.dsdl"), has_parent_service=False)
@@ -441,6 +501,8 @@ def dsdl_def_text(t, deps, names, probes) -> str:
         lines.append(ft if f[0] == "void" else "%s f%d" % (ft, i))
     if len(t[1]) in probes:
         lines.append("@print _offset_")
+    for ci in range(t[2] if len(t) > 2 else 0):
+        lines.append("uint8 C%d = %d" % (ci, ci % 256))
     lines.append("@sealed" if ext is None else "@extent %d" % ext)
     return "\n".join(lines) + "\n"
 
@@ -475,6 +537,27 @@ def intrinsic_impl(pydsdl, t, js) -> dict:
                               print_output_handler=lambda p, l, s: prints.append((Path(p).name, l, s)))
             out[j] = prints
         return out
+    finally:
+        shutil.rmtree(d, ignore_errors=True)
+
+
+def svc_intrinsic_impl(pydsdl, t, j, resp):
+    """A service whose request is `t` and whose response is `resp`, `@print _offset_` after j fields in both."""
+    names = _Names()
+    deps: dict = {}
+    d = Path(tempfile.mkdtemp(prefix="verif_layout_"))
+    try:
+        (d / "ns").mkdir()
+        req_text = dsdl_def_text(t, deps, names, [j])
+        resp_text = dsdl_def_text(resp, deps, names, [j])
+        for n, tx in deps.items():
+            (d / "ns" / ("%s.1.0.dsdl" % n)).write_text(tx)
+        (d / "ns" / "Svc.1.0.dsdl").write_text(req_text + "---\n" + resp_text)
+        prints: list = []
+        pydsdl.read_files([d / "ns" / "Svc.1.0.dsdl"], [d / "ns"], [], print_output_handler=lambda p, l, s: prints.append(s))
+        if len(prints) != 2:
+            return "prints:%r" % (prints,)
+        return [parse_set(prints[0]), parse_set(prints[1])]
     finally:
         shutil.rmtree(d, ignore_errors=True)
 
@@ -515,6 +598,13 @@ class LayoutSuite(common.Suite):
     def run_impl(self, case):
         pydsdl = common.import_pydsdl()
         t = case["ty"]
+        if case.get("warm") is not None:
+            try:
+                wt = build_impl(pydsdl, case["warm"], _Names())
+                sorted(wt.bit_length_set % 32)
+                hash(wt)
+            except Exception:
+                pass
         try:
             ty = build_impl(pydsdl, t, _Names())
         except pydsdl.InvalidDefinitionError as ex:
@@ -583,6 +673,8 @@ class LayoutSuite(common.Suite):
             if idx != list(range(ty.capacity)):
                 return "elements-not-in-order"
             return res
+        if k == "svc_intrinsic":
+            return svc_intrinsic_impl(pydsdl, t, q[1], q[2])
         if k == "intrinsic":
             if "error" in intr_res:
                 return "exc:" + intr_res["error"]
@@ -600,7 +692,8 @@ class LayoutSuite(common.Suite):
         raise ValueError(k)
 
     def model_case(self, case):
-        return {"id": case["id"], "ty": strip(case["ty"]), "qs": case["qs"]}
+        qs = [[q[0], q[1], strip(q[2])] if q[0] == "svc_intrinsic" else q for q in case["qs"]]
+        return {"id": case["id"], "ty": strip(case["ty"]), "qs": qs}
 
     def compare(self, case, impl, model, prop):
         if impl.get("res") != model.get("res"):
@@ -664,6 +757,14 @@ class LayoutSuite(common.Suite):
                 offs = s_field_offsets(st, q[1], on) if k == "offsets" else s_elem_offsets(st, q[1], on)
                 om: dict = {}
                 exp = [{"min": B.o_min(on, o), "max": B.o_max(on, o), "mods": [sorted(B.o_res(on, o, d, om)) for d in q[2]]} for o in offs]
+            elif k == "svc_intrinsic":
+                exp = []
+                for tt in (st, strip(q[2])):
+                    inn2: list = []
+                    den2 = B.o_den(inn2, s_intrinsic(tt, q[1], inn2), 4000, {})
+                    exp.append(None if den2 is None else sorted(den2))
+                if None in exp:
+                    continue
             elif k == "intrinsic":
                 inn: list = []
                 i = s_intrinsic(st, q[1], inn)
@@ -789,6 +890,10 @@ def make_queries_for_shrunk(t, qs):
             continue
         if k == "intrinsic":
             if st[0] not in ("struct", "union", "delim") or q[1] > nf:
+                continue
+        if k == "svc_intrinsic":
+            inner1 = st[1] if st[0] == "delim" else st
+            if inner1[0] != "struct" or q[1] > len(inner1[1]) or nested_arrays(st):
                 continue
         keep.append(q)
     return {"ty": t, "qs": keep} if keep else None
